@@ -5,7 +5,7 @@ CONSTANTS
   MaxH = 1
   Bodies <- Bodies4
   Peers <- PeersOne
-  ClNames <- ClOne
+  ClNames <- ClMixed
   ClPos = {"last"}
   Mode = "lemma"
   Cap = 8192
